@@ -583,6 +583,15 @@ class SReal:
     def __bool__(self):
         return CTX.fork(z3.Or(self.nan, self.v != 0))
 
+    def __ceil__(self):
+        return self.ceil()
+
+    def __floor__(self):
+        return self.floor()
+
+    def __trunc__(self):
+        return SInt(z3.If(self.v >= 0, z3.ToInt(self.v), -z3.ToInt(-self.v)))
+
     def __float__(self):
         raise Inconclusive("float() of a symbolic real")
 
